@@ -6,7 +6,7 @@ Local Open Scope list_scope.
 
 (* ---------- the independent specification: "an error object occurs in v" ---------- *)
 Inductive occurs_err : vtree -> Prop :=
-| oe_here : occurs_err VErr
+| oe_here : forall td, occurs_err (VErr td)
 | oe_item : forall l x, In x l -> occurs_err x -> occurs_err (VList l)
 | oe_key : forall kvs k x, In (k, x) kvs -> occurs_err k -> occurs_err (VMap kvs)
 | oe_val : forall kvs k x, In (k, x) kvs -> occurs_err x -> occurs_err (VMap kvs).
@@ -75,6 +75,35 @@ Proof.
   - intros H. destruct (existsb scan l) eqn:E; auto. apply existsb_exists in E as (x & Hin & Hx).
     apply H in Hin. apply scan_false_err_free in Hin. congruence.
 Qed.
+
+(* the error object reported is the first one; there is one iff the scan finds one *)
+Lemma first_err_scan : forall v, first_err v = None <-> scan v = false.
+Proof.
+  induction v as [| | | | | |td|l IH|kvs IH] using vtree_ind'; cbn [first_err scan];
+    try (split; [reflexivity|reflexivity]); try (split; discriminate).
+  - induction IH as [|x r Hx _ IHr]; cbn; [tauto|].
+    destruct (first_err x) as [t|] eqn:E.
+    + split; [discriminate|]. intros H. apply Bool.orb_false_iff in H as [H _].
+      apply Hx in H. discriminate.
+    + destruct Hx as [Hx _]. rewrite (Hx eq_refl). cbn. exact IHr.
+  - induction IH as [|[k x] r [Hk Hx] _ IHr]; cbn; [tauto|]. cbn [fst snd] in *.
+    destruct (first_err k) as [t|] eqn:Ek.
+    { split; [discriminate|]. intros H. apply Bool.orb_false_iff in H as [H _].
+      apply Bool.orb_false_iff in H as [H _]. apply Hk in H. discriminate. }
+    destruct Hk as [Hk _]. rewrite (Hk eq_refl). cbn.
+    destruct (first_err x) as [t|] eqn:Ex.
+    { split; [discriminate|]. intros H. apply Bool.orb_false_iff in H as [H _].
+      apply Hx in H. discriminate. }
+    destruct Hx as [Hx _]. rewrite (Hx eq_refl). cbn. exact IHr.
+Qed.
+
+Lemma first_err_some : forall v t, first_err v = Some t -> scan v = true.
+Proof.
+  intros v t H. destruct (scan v) eqn:S; auto. apply first_err_scan in S. congruence.
+Qed.
+
+Lemma first_err_none_err_free : forall v, first_err v = None <-> err_free v.
+Proof. intros v. rewrite first_err_scan. apply scan_false_err_free. Qed.
 
 (* ====================================================================== *)
 (* C10: the evaluation wrappers                                            *)
